@@ -51,13 +51,14 @@ Mech_intended ==
     exoBlockStart    |-> "accumulate",
     exoUnits         |-> "converted",
     exoChunked       |-> "values",
-    exoReader        |-> "all_blocks" ]
+    exoReader        |-> "all_blocks",
+    fileFill         |-> "encoding_dropped" ]  \* a grid read from a file does not keep the file's fill value in the variable's encoding
 
 \* as read in /repo (d3a60c34, ef0ca9d1, e3484517, ea0c8869 are in)
 Mech_observed ==
   [ topoTemplate     |-> "copied",
     edgeNodeTemplate |-> "copied",
-    ugridExport      |-> "internal_dataset",  \* _encode_ugrid(self._ds): returns _ds itself unless it held a grid_topology
+    ugridExport      |-> "new_dataset",       \* since 7ad7d162 (before: _encode_ugrid(self._ds) returned _ds itself unless it held a grid_topology)
     helperAttrs      |-> "in_attrs",          \* inverse_indices / fill_value_mask ndarrays; IntervalIndex + DataFrame on bounds
     ugridNodeCoords  |-> "as_present",        \* names node_lon node_lat whether or not they were ever materialised
     scripPad         |-> "index_with_fill",
@@ -65,7 +66,8 @@ Mech_observed ==
     exoBlockStart    |-> "assign",
     exoUnits         |-> "converted",
     exoChunked       |-> "values",
-    exoReader        |-> "last_block" ]
+    exoReader        |-> "last_block",
+    fileFill         |-> "attrs_and_encoding" ]  \* _standardize_connectivity sets attrs["_FillValue"], the source's stays in .encoding
 
 MechOf(n) ==
   CASE n = "intended"     -> Mech_intended
@@ -82,6 +84,7 @@ MechOf(n) ==
     [] n = "only_exofill"   -> [ Mech_intended EXCEPT !.exoFillTest = "minus_one" ]
     [] n = "only_exostart"  -> [ Mech_intended EXCEPT !.exoBlockStart = "assign" ]
     [] n = "only_exoreader" -> [ Mech_intended EXCEPT !.exoReader = "last_block" ]
+    [] n = "only_filefill"  -> [ Mech_intended EXCEPT !.fileFill = "attrs_and_encoding" ]
 Mech == MechOf(MechName)
 
 (* ---- vocabulary -------------------------------------------------------------- *)
@@ -128,7 +131,7 @@ SrcStore(route) ==
   CASE route = "topo"  -> { FNC } \cup NodeLL
     [] route = "topoE" -> { FNC, ENC } \cup NodeLL           \* the source supplies an edge table
     [] route = "fv"    -> { FNC } \cup NodeXYZ                \* Cartesian face vertices only
-    [] route = "ugrid" -> { FNC, TOPO } \cup NodeLL \cup NodeXYZ
+    [] route \in { "ugrid", "ufile" } -> { FNC, TOPO } \cup NodeLL \cup NodeXYZ   \* UGRID dataset in memory / in a NetCDF file
 
 WithDims(store) == store \cup { "n_face", "n_node", "n_max_face_nodes" }
                          \cup (IF store \cap EdgeDimVars # {} THEN { "n_edge" } ELSE {})
@@ -151,32 +154,35 @@ MeshOf(g, shape) ==
 NoBack == [ st |-> "none", ok |-> TRUE ]
 
 (* ---- judging one export when it is produced --------------------------------- *)
+\* a dataset whose metadata names something absent is incomplete: the clauses about its
+\* content (WellFormed, EncodedFaces, RoundTrip, HistoryIndependent) are consequences and are
+\* not reported a second time
+Closed(e) == e.names \subseteq e.vars
+NameClass(n) == IF n \in NodeLL THEN "node_coordinates" ELSE n
 SameCore(a, b) ==
-  /\ a.status = b.status
-  /\ a.status = "ok" =>
-       /\ WellFormed(a.enc) = WellFormed(b.enc)
-       /\ (WellFormed(a.enc) /\ WellFormed(b.enc)) => FacesMatch(a.fmt, Decoded(a.enc), Decoded(b.enc))
-       /\ a.names \cap UgridBase = b.names \cap UgridBase
+  /\ WellFormed(a.enc) = WellFormed(b.enc)
+  /\ (WellFormed(a.enc) /\ WellFormed(b.enc)) => FacesMatch(a.fmt, Decoded(a.enc), Decoded(b.enc))
+  /\ a.names \cap UgridBase = b.names \cap UgridBase
 \* e: the new export; ex: the exports before it
 JudgeExport(e, ex) ==
   IF e.status # "ok" THEN { <<"Encodes", "">> }
-  ELSE { <<"MetadataClosed", n>> : n \in e.names \ e.vars }
-       \cup (IF ~WellFormed(e.enc) THEN { <<"WellFormed", WhyIllFormed(e.enc)>> }
-             ELSE IF ~FacesMatch(e.fmt, mesh[e.g], Decoded(e.enc)) THEN { <<"EncodedFaces", "">> } ELSE {})
-       \cup (IF \E j \in DOMAIN ex : ex[j].g = e.g /\ ex[j].fmt = e.fmt /\ ex[j].status = "ok" /\ ~SameCore(ex[j], e)
+  ELSE IF ~Closed(e) THEN { <<"MetadataClosed", NameClass(n)>> : n \in e.names \ e.vars }
+  ELSE (IF ~WellFormed(e.enc) THEN { <<"WellFormed", WhyIllFormed(e.enc)>> }
+        ELSE IF ~FacesMatch(e.fmt, mesh[e.g], Decoded(e.enc)) THEN { <<"EncodedFaces", "">> } ELSE {})
+       \cup (IF \E j \in DOMAIN ex : ex[j].g = e.g /\ ex[j].fmt = e.fmt /\ ex[j].status = "ok" /\ Closed(ex[j]) /\ ~SameCore(ex[j], e)
              THEN { <<"HistoryIndependent", "">> } ELSE {})
 
 (* ---- actions, parameterised by their outcome ------------------------------- *)
 \* exports that ARE the grid's own dataset follow the grid
 Follow(ex, g, store, helper) ==
   [ k \in DOMAIN ex |-> IF ex[k].alias /\ ex[k].g = g
-                        THEN [ ex[k] EXCEPT !.vars = WithDims(store), !.helper = helper \cap store ]
+                        THEN [ ex[k] EXCEPT !.vars = WithDims(store), !.helper = helper ]
                         ELSE ex[k] ]
 
 \* o = [store, helper, tT, tE]
 Open(g, o) ==
   /\ ~grid[g].open
-  /\ grid' = [ grid EXCEPT ![g] = [ open |-> TRUE, store |-> o.store, helper |-> o.helper, chunked |-> FALSE ] ]
+  /\ grid' = [ grid EXCEPT ![g] = [ open |-> TRUE, store |-> o.store, helper |-> o.helper, chunked |-> FALSE, src |-> o.store ] ]
   /\ tmplTopo' = o.tT /\ tmplEdge' = o.tE
   /\ exports' = exports
 
@@ -210,7 +216,7 @@ WriteNetcdf(k, o) ==
   /\ exports' = [ exports EXCEPT
         ![k].written = IF ~o.ok THEN (IF exports[k].helper # {} THEN "fail_helper_attrs" ELSE "fail")
                        ELSE IF @ \in { "no", "ok" } THEN "ok" ELSE @,
-        ![k].jud = @ \cup (IF ~o.ok THEN {}
+        ![k].jud = @ \cup (IF ~o.ok \/ exports[k].jud # {} THEN {}
                            ELSE IF ~WellFormed(o.enc) THEN { <<"WellFormed", "file:" \o WhyIllFormed(o.enc)>> }
                            ELSE IF ~FacesMatch(exports[k].fmt, mesh[exports[k].g], Decoded(o.enc)) THEN { <<"EncodedFaces", "file">> }
                            ELSE {}) ]
@@ -229,11 +235,12 @@ Violated ==
   { <<"TemplatesConstant", 0, t>> : t \in tmplTopo \cup tmplEdge }
   \cup UNION { LET e == exports[k] IN
       { <<v[1], k, v[2]>> : v \in e.jud }
-      \cup { <<"Serialisable", k, v>> : v \in e.helper }
+      \* a helper-carrying variable that the SOURCE supplied got its helper attrs from somewhere else
+      \cup { <<"Serialisable", k, IF v \in grid[e.g].src THEN v \o ":supplied_by_source" ELSE v>> : v \in e.helper }
       \cup (IF e.written = "fail" THEN { <<"Serialisable", k, "to_netcdf">> } ELSE {})
       \cup (IF e.written = "fail_helper_attrs" THEN { <<"Serialisable", k, "to_netcdf_with_helper_attrs">> } ELSE {})
-      \cup (IF e.mem.st = "raise" \/ ~e.mem.ok THEN { <<"RoundTrip", k, "mem">> } ELSE {})
-      \cup (IF e.file.st = "raise" \/ ~e.file.ok THEN { <<"RoundTrip", k, "file">> } ELSE {})
+      \cup (IF Closed(e) /\ (e.mem.st = "raise" \/ ~e.mem.ok) THEN { <<"RoundTrip", k, "mem">> } ELSE {})
+      \cup (IF Closed(e) /\ (e.file.st = "raise" \/ ~e.file.ok) THEN { <<"RoundTrip", k, "file">> } ELSE {})
     : k \in DOMAIN exports }
 
 Clause(c) == \A v \in Violated : v[1] # c
@@ -261,7 +268,7 @@ DialectRoundTrip ==
        /\ ReadBack(E, "all_blocks").st = "ok" /\ FacesMatch(fmt, mesh[g], ReadBack(E, "all_blocks").faces)
 
 TypeOK ==
-  /\ \A g \in Grids : grid[g].helper \subseteq grid[g].store
+  /\ \A g \in Grids : grid[g].open \/ grid[g].store = {}
   /\ Len(exports) <= MaxExports /\ ops <= MaxOps
 
 (* ---- outcomes under Mech (model checking and generation) -------------------- *)
@@ -271,7 +278,9 @@ HelperAfter(g, a) ==
                        THEN { v \in { ENC, "bounds" } : Derives(g, a, v) } ELSE {})
 OutOpen(g) ==
   [ store  |-> SrcStore(desc[g].route),
-    helper |-> IF desc[g].route = "topoE" /\ tmplEdge # {} THEN { ENC } ELSE {},
+    helper |-> (IF desc[g].route = "topoE" /\ tmplEdge # {} THEN { ENC } ELSE {})
+               \cup (IF desc[g].route = "ufile" /\ Mech.fileFill = "attrs_and_encoding"
+                     THEN { "face_node_connectivity:_FillValue_in_attrs_and_encoding" } ELSE {}),
     tT |-> tmplTopo, tE |-> tmplEdge ]
 OutAccess(g, a) ==
   LET st == grid[g].store \cup Need(a)
@@ -321,7 +330,7 @@ Init ==
   /\ desc["g1"].route \in Routes1 /\ desc["g1"].shape \in Shapes1
   /\ desc["g2"].route \in Routes2 /\ desc["g2"].shape \in Shapes2
   /\ mesh = [ g \in Grids |-> MeshOf(g, desc[g].shape) ]
-  /\ grid = [ g \in Grids |-> [ open |-> FALSE, store |-> {}, helper |-> {}, chunked |-> FALSE ] ]
+  /\ grid = [ g \in Grids |-> [ open |-> FALSE, store |-> {}, helper |-> {}, chunked |-> FALSE, src |-> {} ] ]
   /\ exports = <<>> /\ tmplTopo = {} /\ tmplEdge = {} /\ ops = 0 /\ bad = {} /\ hist = <<>>
 
 Tick(call) == /\ ops < MaxOps /\ ops' = ops + 1 /\ UNCHANGED <<desc, mesh>> /\ bad' = Violated' \ Violated
